@@ -509,8 +509,18 @@ class ExprMixin:
 
     def ev_BoolOp(self, node):
         if self.spec_mode:
-            zs = [truthy(self.ev(v)) for v in node.values]
-            return mk_bool(z3.And(*zs) if isinstance(node.op, ast.And) else z3.Or(*zs))
+            is_and = isinstance(node.op, ast.And)
+            zs = []
+            for vnode in node.values:
+                zb = truthy(self.ev(vnode))
+                zs.append(zb)
+                sb = z3.simplify(zb)
+                # static short-circuit (later operands may be ill-typed for this case)
+                if is_and and z3.is_false(sb):
+                    return mk_bool(False)
+                if not is_and and z3.is_true(sb):
+                    return mk_bool(True)
+            return mk_bool(z3.And(*zs) if is_and else z3.Or(*zs))
         is_and = isinstance(node.op, ast.And)
         cur = self.ev(node.values[0])
         for nxt in node.values[1:]:
